@@ -42,6 +42,10 @@ META = {
         'shape of the returned object: 1 time signature, 1 key signature, 2 '
         'tempos, 1-2 instruments with 2 notes, 1 bend and 1 control change '
         'each',
+        'contract K also says: tempo-change ticks of a parsed file are below '
+        'the MAX_TICK midi_io configures (1e10), and get_tempo_changes raises '
+        'IndexError for a tick at or above the MAX_TICK in force when it is '
+        'CALLED (pretty_midi.tick_to_time)',
     ],
     'bounds': {'quick': 'denominator exponents {0,1,2,3,7,8,30,31,32,63,64,255}, '
                         'key numbers {0,11,12,23}; everything else symbolic',
@@ -155,6 +159,7 @@ def h_object(c):
   else:
     vals['key'] = c.choice('key', [0, 11, 12, 23])
   vals['key_t'] = c.real('key_t', 0)
+  tempo_ticks = [c.int('tp%d_tick' % i, 0, 10**10 - 1) for i in range(2)]
   tempo_t = [c.real('tp%d_t' % i, 0) for i in range(2)]
   tempo_q = [c.real('tp%d_q' % i) for i in range(2)]
   for q in tempo_q:
@@ -192,11 +197,27 @@ def h_object(c):
       ins.pitch_bends.append(pmod.PitchBend(*d['bend']))
       ins.control_changes.append(pmod.ControlChange(*d['cc']))
       self.instruments.append(ins)
+    def check_ticks():
+      # PrettyMIDI.get_tempo_changes converts ticks with tick_to_time, which
+      # raises IndexError for a tick >= pretty_midi.pretty_midi.MAX_TICK (the
+      # value in force at the time of the CALL); the constructor only admits
+      # files whose last tick is below the limit midi_io configures (1e10)
+      limit = mio.pretty_midi.pretty_midi.MAX_TICK
+      for tk in tempo_ticks:
+        if tk >= limit:
+          raise IndexError('Supplied tick is too large.')
+
     if c.mode == 'sym':
-      self.get_tempo_changes = lambda: (list(tempo_t), list(tempo_q))
+      def gtc():
+        check_ticks()
+        return list(tempo_t), list(tempo_q)
     else:
       np = c.np
-      self.get_tempo_changes = lambda: (np.array(tempo_t), np.array(tempo_q))
+
+      def gtc():
+        check_ticks()
+        return np.array(tempo_t), np.array(tempo_q)
+    self.get_tempo_changes = gtc
 
   restore = _install(c, mio, plan)
   try:
